@@ -356,6 +356,14 @@ func TestVerifSanity(t *testing.T) {
 				if hit[[2]int{si, k}] {
 					effective[st.Mut]++
 				}
+				for _, a := range st.Args {
+					if strings.HasSuffix(a, ":target-digest=matching") {
+						reached[a]++
+						if hit[[2]int{si, k}] {
+							effective[a]++
+						}
+					}
+				}
 			}
 		}
 	})
@@ -369,7 +377,8 @@ func TestVerifSanity(t *testing.T) {
 		ev.Add("sanity_normal_run_changed_state:"+k, effective[k])
 		t.Logf("normal run: %-18s reached %4d  changed state %4d", k, reached[k], effective[k])
 	}
-	for _, b := range []string{"image.copy", "tag.delete", "manifest:delete", "manifest.put", "blob.put", "image.importTar"} {
+	for _, b := range []string{"image.copy", "tag.delete", "manifest:delete", "manifest.put", "blob.put", "image.importTar",
+		"manifest.put:target-digest=matching", "image.copy:target-digest=matching"} {
 		if effective[b] == 0 {
 			t.Errorf("INCONCLUSIVE: no generated %s statement changed state in a normal run (%d reached): the generator is too weak", b, reached[b])
 		}
